@@ -34,6 +34,8 @@ pub use v1::OutputPort;
 
 #[cfg(feature = "output-port-v2")]
 pub use v2::OutputPort;
+#[cfg(all(feature = "output-port-v2", slawlor_ractor_verif))]
+pub use v2::verif_v2_probe;
 
 #[cfg(not(feature = "output-port-v2"))]
 mod v1 {
@@ -234,6 +236,9 @@ mod v2 {
             self.inner.send(msg)
         }
     }
+
+    #[cfg(slawlor_ractor_verif)]
+    pub use inner::verif_probe as verif_v2_probe;
 
     mod inner {
 
@@ -485,6 +490,10 @@ mod v2 {
                 self.get_id()
             }
         }
+
+        #[cfg(slawlor_ractor_verif)]
+        #[path = "/verif/hooks/port_output_v2.rs"]
+        pub mod verif_probe;
 
         #[cfg(test)]
         mod tests {
